@@ -11,6 +11,10 @@ import shutil
 from .. import appimage as ai
 from .. import core, tlc
 
+# short TLC runs (negative configurations, generation, trace validation): C1 only, two GC threads --
+# a third of the CPU of the default JIT on runs of a few seconds
+LIGHT_JVM = ("-XX:TieredStopAtLevel=1", "-XX:ParallelGCThreads=2")
+
 NEGATIVE = [  # (cfg, invariant that must be violated, what it shows)
     ("Neg_AppImage_done.cfg", "NeverDone", "files get completed"),
     ("Neg_AppImage_second.cfg", "NeverSecondRun", "second runs happen"),
@@ -22,6 +26,8 @@ NEGATIVE = [  # (cfg, invariant that must be violated, what it shows)
     ("Neg_AppImage_twopubs.cfg", "SinglePub", "a second public key file is caught"),
     ("Neg_AppImage_tailtwice.cfg", "HashedLength",
      "hashing an area twice when it is a whole number of 4096-byte blocks is caught once sizes vary"),
+    ("Neg_AppImage_nameclash.cfg", "NeverNameClash", "runs name two different images by one file name"),
+    ("Neg_AppImage_byname.cfg", "SigVerifies", "a hash table keyed by file name is caught"),
     ("Neg_AppImage_reusepath.cfg", "NeverReusesPath", "-o paths get reused for other images"),
     ("Neg_AppImage_stale.cfg", "AuthBinds", "keeping the authorization already at the -o path is caught"),
 ]
@@ -30,32 +36,47 @@ ACTIONS = ("Message", "SelectZone", "WriteData", "WriteEof", "StartRun", "GenKey
 
 
 # ------------------------------------------------------------------------------------------------
-def exec_layout(ctx, lay, tag, k):
-    """Write the layout as a real .hex and run the three tools that report its hash."""
+LAYOUT_SHAPES = ("name", "absolute", "dotslash", "blanks-nonascii", "cwd-elsewhere", "output-elsewhere")
+
+
+def exec_layout(ctx, lay, tag, k, shapes=None):
+    """Write the layout as a real .hex and run the three tools that report its hash; the way the
+    file (and the -o file) is named on the command line cycles through LAYOUT_SHAPES."""
     ai.check_writer(lay)
     d = os.path.join(ctx.scratch, "lay")
-    os.makedirs(d, exist_ok=True)
+    shape = LAYOUT_SHAPES[k % len(LAYOUT_SHAPES)]
+    if shapes is not None:
+        shapes[shape] = shapes.get(shape, 0) + 1
     name = "app_%s.hex" % tag
+    if shape == "blanks-nonascii":
+        name = os.path.join("my apps", "firmware %s \u00f1\u00e9 v2.hex" % tag)
     path = os.path.join(d, name)
+    os.makedirs(os.path.dirname(path), exist_ok=True)
+    os.makedirs(os.path.join(d, "wd"), exist_ok=True)
+    os.makedirs(os.path.join(d, "else where"), exist_ok=True)
+    cwd = os.path.join(d, "wd") if shape == "cwd-elsewhere" else d
+    arg = {"name": name, "blanks-nonascii": name, "absolute": path, "output-elsewhere": path,
+           "dotslash": "." + os.sep + name, "cwd-elsewhere": os.path.relpath(path, cwd)}[shape]
     ai.write_hex(lay, path)
     reports, hins = [], []
     pareas = ai.observe_parser(path)
     r, h = ai.run_compute(path)
     reports.append(r)
     hins += h
-    rel = k % 2 == 0
-    r, h, _ = ai.run_signapp_hash(name if rel else path, cwd=d)
+    r, h, _ = ai.run_signapp_hash(arg, cwd=cwd)
     reports.append(r)
     hins += h
     it = (k * 7919) % 65536
-    if k % 3 == 0:
-        r, h, _ = ai.run_signapp_message(name, it, "auth_%s.json" % tag, cwd=d)
+    if k % 3 == 0 or shape == "output-elsewhere":
+        out = "auth_%s.json" % tag
+        if shape == "output-elsewhere":
+            out = os.path.join(d, "else where", out) if k % 2 else os.path.join("else where", out)
+        r, h, _ = ai.run_signapp_message(arg, it, out, cwd=cwd)
     else:
-        r, h, _ = ai.run_signapp_message(name if rel else path, it, None, cwd=d)
+        r, h, _ = ai.run_signapp_message(arg, it, None, cwd=cwd)
     reports.append(r)
     hins += h
-    for f in os.listdir(d):
-        os.unlink(os.path.join(d, f))
+    shutil.rmtree(d, ignore_errors=True)
     return reports, hins, pareas
 
 
@@ -63,9 +84,9 @@ def layout_signature(clause, via, lay):
     return "%s|via=%s|%s" % (clause, via, lay.klass())
 
 
-def session_signature(clause, at, run):
-    return "%s|run=%s imgs=%s" % (clause, "first" if at <= 1 else "repeated",
-                                  "one" if len(run["imgs"]) == 1 else "many")
+def session_signature(clause, at, run, dirs="flat"):
+    return "%s|run=%s imgs=%s names=%s" % (clause, "first" if at <= 1 else "repeated",
+                                           "one" if len(run["imgs"]) == 1 else "many", dirs)
 
 
 def contents_of(layouts):
@@ -77,17 +98,17 @@ def contents_of(layouts):
     return out
 
 
-def exec_session(ctx, layouts, plan, tag, rng):
+def exec_session(ctx, layouts, plan, tag, rng, dirs="flat"):
     """plan: [{"imgs", "pub", "relative", "spaces"}] -> session trace + info"""
     root = os.path.join(ctx.scratch, "ses_%s" % tag)
     os.makedirs(root)
     try:
         contents = contents_of(layouts)
-        s = ai.Session(root, layouts, contents, rng)
+        s = ai.Session(root, layouts, contents, rng, dirs)
         runs, infos = [], []
         for st in plan:
             run, info = s.run(st["imgs"], st["pub"], st.get("relative", True), st.get("spaces", False),
-                              st.get("child", False))
+                              st.get("child", False), st.get("form"))
             runs.append(run)
             infos.append(info)
         return {"kind": "session", "contents": contents,
@@ -96,16 +117,16 @@ def exec_session(ctx, layouts, plan, tag, rng):
         shutil.rmtree(root, ignore_errors=True)
 
 
-def exec_auth(ctx, layouts, pre, plan, tag, rng):
+def exec_auth(ctx, layouts, pre, plan, tag, rng, dirs="flat", otherdir=False):
     """plan: [{"img", "iter", "out", "relative"}] -> auth trace + infos"""
     root = os.path.join(ctx.scratch, "auth_%s" % tag)
     os.makedirs(root)
     try:
         contents = contents_of(layouts)
-        s = ai.AuthSession(root, layouts, contents, pre, rng)
+        s = ai.AuthSession(root, layouts, contents, pre, rng, dirs, otherdir)
         steps, infos = [], []
         for st in plan:
-            o, info = s.step(st["img"], st["iter"], st["out"], st.get("relative", True))
+            o, info = s.step(st["img"], st["iter"], st["out"], st.get("relative", True), st.get("form"))
             steps.append(o)
             infos.append(info)
         return {"kind": "auth", "contents": contents, "expected": [list(x) for x in s.expected],
@@ -152,6 +173,11 @@ def run(ctx):
         "65536 bytes); every layout of class small is replayed, of the other classes a seeded sample; other "
         "block sizes a tool might treat specially are only met by the random tier's boundary lengths "
         "(255..65537 around every power of two)",
+        "invocation shapes: image naming (flat / one name in several directories / mixed / blanks and "
+        "non-ASCII), path form (relative, absolute, ./x, mixed), working directory (the images' or another), "
+        "output path (relative, absolute, another directory) are Env choices of the model, enumerated as "
+        "pairwise-covering setups, not as the full product; symlinks, hard links and case-insensitive file "
+        "systems are not generated",
         "bitcoin.core stand-in is loaded (imports only; not exercised)",
     ]
     rng = ctx.rng
@@ -173,8 +199,12 @@ def run(ctx):
     pool = cf.ThreadPoolExecutor(max_workers=3)
     extra_cfgs = ctx.pick([], ["MC_AppImage_runs3.cfg"])
     extra_jobs = [(cfg, pool.submit(tlc.check, "MC_AppImage", cfg, workers=3)) for cfg in extra_cfgs]
-    blind_job = pool.submit(tlc.run, "MC_AppImage", "MC_AppImage_tailtwice_small.cfg", workers=1, heap="1g")
-    neg_jobs = [(item, pool.submit(tlc.run, "MC_AppImage", item[0], workers=1, heap="1g")) for item in NEGATIVE]
+    blind_job = pool.submit(tlc.run, "MC_AppImage", "MC_AppImage_tailtwice_small.cfg", workers=1, heap="1g",
+                            java_opts=LIGHT_JVM)
+    blind2_job = pool.submit(tlc.run, "MC_AppImage", "MC_AppImage_byname_flat.cfg", workers=1, heap="2g",
+                             java_opts=LIGHT_JVM)
+    neg_jobs = [(item, pool.submit(tlc.run, "MC_AppImage", item[0], workers=1, heap="1g", java_opts=LIGHT_JVM))
+                for item in NEGATIVE]
 
     def collect_background():
         for cfg, fut in extra_jobs:
@@ -195,13 +225,23 @@ def run(ctx):
         negs.append("MC_AppImage_tailtwice_small.cfg: the same defective variant satisfies HashInputOk and "
                     "HashedLength when SizeClasses = {small} (why the size classes are an Env choice)")
         res.checker_cmds.append(rb.cmd)
+        rb2 = blind2_job.result()
+        if not rb2.ok or rb2.violated:
+            raise core.MachineryError("MC_AppImage_byname_flat.cfg expected to hold: %s %s" % (rb2.violated, rb2.error))
+        negs.append("MC_AppImage_byname_flat.cfg: the by-file-name variant satisfies SigVerifies when every "
+                    "image has a name of its own (why the naming of the images is an Env choice)")
+        res.checker_cmds.append(rb2.cmd)
         res.coverage["negative_configurations"] = negs
         pool.shutdown()
 
     # 2. every complete file x size class, every signing session and message sequence of the model
     gen_cfg = ctx.pick("Gen_AppImage.cfg", "Gen_AppImage_full.cfg")
-    behaviours, rg = tlc.generate("GenAppImage", gen_cfg, timeout=3000)
+    behaviours, rg = tlc.generate("GenAppImage", gen_cfg, timeout=3000, java_opts=LIGHT_JVM)
     res.add_tlc(rg, "%s behaviours" % gen_cfg)
+    forms = [json.loads(x) for x in rg.printed("F")]
+    if len(forms) != 1 or not forms[0]:
+        raise core.MachineryError("generation did not print the invocation forms")
+    forms = forms[0]
     mlayouts = [b for b in behaviours if b["kind"] == "layout"]
     msessions = [b for b in behaviours if b["kind"] == "session"]
     mauths = [b for b in behaviours if b["kind"] == "auth"]
@@ -219,6 +259,10 @@ def run(ctx):
     cov_hash = {s: 0 for s in sizes}        # layouts through compute / signapp hash / signapp message
     cov_sign = {s: 0 for s in sizes}        # images signed by signonetime
     cov_auth = {s: 0 for s in sizes}        # message sequences
+    cov_shapes = {}                         # how single files were named for signapp hash / message
+    cov_dirs = {"signonetime": {}, "message": {}}
+    cov_forms = {"signonetime": {}, "message": {}}
+    cov_clash = [0]                         # runs naming two images of different contents by one file name
 
     traces, meta = [], {}
 
@@ -256,7 +300,7 @@ def run(ctx):
     for k, i in enumerate(selected):
         b = mlayouts[i]
         lay = ai.concretise(b, rng)
-        reports, hins, pareas = exec_layout(ctx, lay, "m%d" % i, k)
+        reports, hins, pareas = exec_layout(ctx, lay, "m%d" % i, k, cov_shapes)
         cov_hash[b["size"]] += 1
         add(ai.trace_of_layout(0, lay, reports, hins, b["size"] == "small", pareas),
             {"kind": "layout", "lay": lay, "reports": reports, "src": "model"})
@@ -292,20 +336,43 @@ def run(ctx):
     # 3b. model sessions (all size classes); the selected layouts get signed (thorough: all of the
     # bigger classes, a 6 000 sample of the class small)
     signed = set()
+    def name_of(dirs, i):
+        return 1 if dirs == "samename" else (1 if (dirs == "mixed" and i <= 2) else i)
+
+    def clashes(b):
+        for st in b["plan"]:
+            for x in st["imgs"]:
+                for y in st["imgs"]:
+                    if name_of(b["dirs"], x) == name_of(b["dirs"], y) and \
+                            b["contents"][x - 1] != b["contents"][y - 1]:
+                        return True
+        return False
+
+    def count(tab, key):
+        tab[key] = tab.get(key, 0) + 1
     order = list(range(len(msessions)))
     rng.shuffle(order)
     n_sessions = ctx.pick(min(len(order), 180), min(len(order), 2000))
     n_child = ctx.pick(3, 40)
+    # a third of the budget: sessions with a run that names two different images by one file name
+    first = [k for k in order if clashes(msessions[k])][:n_sessions // 3]
+    order = first[:n_child // 2] + [k for k in order if k not in set(first)][:n_sessions - len(first)] \
+        + first[n_child // 2:]
     for pos, si in enumerate(order[:n_sessions]):
         b = msessions[si]
         chosen, lays = images_for(b)
-        plan = [{"imgs": st["imgs"], "pub": st["pub"], "relative": rng.random() < 0.5,
+        plan = [{"imgs": st["imgs"], "pub": st["pub"], "form": forms[st["form"] - 1],
                  "spaces": rng.random() < 0.3, "child": pos < n_child} for st in b["plan"]]
-        t, infos = exec_session(ctx, lays, plan, "m%d" % si, rng)
+        t, infos = exec_session(ctx, lays, plan, "m%d" % si, rng, b["dirs"])
+        count(cov_dirs["signonetime"], b["dirs"])
+        cov_clash[0] += 1 if clashes(b) else 0
+        for st in plan:
+            count(cov_forms["signonetime"], "%(addr)s/cwd=%(cwd)s/pub=%(pub)s" % st["form"])
         for st in plan:
             cov_sign[b["size"]] += len(st["imgs"])
             signed.update(chosen[i - 1] for i in st["imgs"])
-        add(t, {"kind": "session", "lays": lays, "plan": plan, "infos": infos, "src": "model"})
+        add(t, {"kind": "session", "lays": lays, "plan": plan, "infos": infos, "src": "model",
+                "dirs": b["dirs"]})
     # the selected layouts no session signed yet: four per run, one run per session
     rest = [i for i in selected if i not in signed]
     big_rest = [i for i in rest if mlayouts[i]["size"] != "small"]
@@ -315,13 +382,17 @@ def run(ctx):
     for n in range(0, len(rest), 4):
         chunk = rest[n:n + 4]
         lays = [ai.concretise(mlayouts[j], rng) for j in chunk]
+        bdirs = ("flat", "samename", "mixed", "blanks")[(n // 4) % 4]
         plan = [{"imgs": list(range(1, len(chunk) + 1)), "pub": 1 + (n // 4) % 2,
-                 "relative": rng.random() < 0.5, "spaces": False}]
-        t, infos = exec_session(ctx, lays, plan, "bulk%d" % n, rng)
+                 "form": forms[(n // 4) % len(forms)], "spaces": False}]
+        t, infos = exec_session(ctx, lays, plan, "bulk%d" % n, rng, bdirs)
+        count(cov_dirs["signonetime"], bdirs)
+        cov_clash[0] += 1 if (bdirs in ("samename", "mixed") and len(chunk) > 1) else 0
         signed.update(chunk)
         for j in chunk:
             cov_sign[mlayouts[j]["size"]] += 1
-        add(t, {"kind": "session", "lays": lays, "plan": plan, "infos": infos, "src": "model-bulk"})
+        add(t, {"kind": "session", "lays": lays, "plan": plan, "infos": infos, "src": "model-bulk",
+                "dirs": bdirs})
     res.coverage["model_layouts_replayed"] = len(selected)
     res.coverage["behaviours_replayed"] = len(selected) + n_sessions
     res.coverage["model_sessions_replayed"] = n_sessions
@@ -348,18 +419,31 @@ def run(ctx):
         b = mauths[ai_]
         n_reuse += 1 if reuses(b) else 0
         _chosen, lays = images_for(b)
-        plan = [{"img": st["img"], "iter": st["iter"], "out": st["out"], "relative": rng.random() < 0.5}
+        plan = [{"img": st["img"], "iter": st["iter"], "out": st["out"], "form": forms[st["form"] - 1]}
                 for st in b["plan"]]
         pre = [{"found": bool(x["found"]), "gotiter": 7} for x in b["pre"]]
-        t, infos = exec_auth(ctx, lays, pre, plan, "m%d" % ai_, rng)
+        otherdir = plan[0]["form"]["pub"] == "otherdir"
+        t, infos = exec_auth(ctx, lays, pre, plan, "m%d" % ai_, rng, b["dirs"], otherdir)
         cov_auth[b["size"]] += 1
-        add(t, {"kind": "auth", "lays": lays, "pre": pre, "plan": plan, "infos": infos, "src": "model"})
+        count(cov_dirs["message"], b["dirs"])
+        for st in plan:
+            count(cov_forms["message"], "%(addr)s/cwd=%(cwd)s/pub=%(pub)s" % st["form"])
+        add(t, {"kind": "auth", "lays": lays, "pre": pre, "plan": plan, "infos": infos, "src": "model",
+                "dirs": b["dirs"], "otherdir": otherdir})
     res.coverage["model_message_sequences_replayed"] = n_auth
     res.coverage["of_which_reuse_a_path_for_another_image"] = n_reuse
     res.coverage["behaviours_replayed"] += n_auth
     res.coverage["size_classes"] = {s: {"unit_lengths": ulens[s], "layouts_hashed": cov_hash[s],
                                         "images_signed_by_signonetime": cov_sign[s],
                                         "message_sequences": cov_auth[s]} for s in sizes}
+    res.coverage["invocation_shapes"] = {
+        "single_file_tools": cov_shapes, "image_naming": cov_dirs, "forms": cov_forms,
+        "signonetime_runs_with_two_different_images_under_one_file_name": cov_clash[0]}
+    want_dirs = {"flat", "samename", "mixed", "blanks"}
+    if set(cov_dirs["signonetime"]) != want_dirs or set(cov_dirs["message"]) != want_dirs or \
+            len(cov_forms["signonetime"]) < len(forms) or len(cov_forms["message"]) < len(forms) or \
+            not cov_clash[0] or len(cov_shapes) < len(LAYOUT_SHAPES):
+        raise core.MachineryError("invocation shapes not all exercised: %s" % res.coverage["invocation_shapes"])
     for s in sizes:
         if not (cov_hash[s] and cov_sign[s] and cov_auth[s]):
             raise core.MachineryError("size class %s not exercised on every path: %s" % (
@@ -380,9 +464,12 @@ def run(ctx):
         boundary = i % 8 == 1
         lay = ai.random_layout(rng, small=small, boundary=boundary)
         n_boundary += 1 if boundary else 0
-        reports, hins, pareas = exec_layout(ctx, lay, "r%d" % i, i)
+        reports, hins, pareas = exec_layout(ctx, lay, "r%d" % i, i, cov_shapes)
         add(ai.trace_of_layout(0, lay, reports, hins, small and lay.total() <= 40, pareas),
             {"kind": "layout", "lay": lay, "reports": reports, "src": lay.src})
+    def rand_form():
+        return {"addr": rng.choice(("rel", "abs", "dotslash", "mixed")), "cwd": rng.choice(("imgdir", "other")),
+                "pub": rng.choice(("rel", "abs", "otherdir"))}
     n_rs = ctx.pick(48, 1000)
     for i in range(n_rs):
         nimg = rng.randrange(1, 5)
@@ -396,12 +483,14 @@ def run(ctx):
             if not lay.mayrefuse:
                 lays.append(lay)
         plan = []
+        rdirs = rng.choice(("flat", "samename", "samename", "mixed", "blanks"))
         for _ in range(rng.choice((1, 2, 2, 3))):
             plan.append({"imgs": [rng.randrange(1, nimg + 1) for _ in range(rng.randrange(1, 5))],
-                         "pub": rng.choice((1, 2)), "relative": rng.random() < 0.5,
+                         "pub": rng.choice((1, 2)), "form": rand_form(),
                          "spaces": rng.random() < 0.3})
-        t, infos = exec_session(ctx, lays, plan, "r%d" % i, rng)
-        add(t, {"kind": "session", "lays": lays, "plan": plan, "infos": infos, "src": "random"})
+        t, infos = exec_session(ctx, lays, plan, "r%d" % i, rng, rdirs)
+        add(t, {"kind": "session", "lays": lays, "plan": plan, "infos": infos, "src": "random",
+                "dirs": rdirs})
     n_ra = ctx.pick(80, 1500)
     fake_sig = "3006020101020101"
     for i in range(n_ra):
@@ -414,10 +503,13 @@ def run(ctx):
                 "signatures": [fake_sig] if rng.random() < 0.5 else []} for _ in range(2)]
         plan = [{"img": rng.randrange(1, len(lays) + 1),
                  "iter": rng.choice((0, 1, 2, 65535, rng.randrange(65536))),
-                 "out": rng.choice((0, 1, 1, 2)), "relative": rng.random() < 0.5}
+                 "out": rng.choice((0, 1, 1, 2)), "form": rand_form()}
                 for _ in range(rng.randrange(2, 6))]
-        t, infos = exec_auth(ctx, lays, pre, plan, "r%d" % i, rng)
-        add(t, {"kind": "auth", "lays": lays, "pre": pre, "plan": plan, "infos": infos, "src": "random"})
+        rdirs = rng.choice(("flat", "samename", "mixed", "blanks"))
+        otherdir = rng.random() < 0.3
+        t, infos = exec_auth(ctx, lays, pre, plan, "r%d" % i, rng, rdirs, otherdir)
+        add(t, {"kind": "auth", "lays": lays, "pre": pre, "plan": plan, "infos": infos, "src": "random",
+                "dirs": rdirs, "otherdir": otherdir})
     res.coverage["random_message_sequences"] = n_ra
     res.coverage["random_layouts"] = n_rand
     res.coverage["random_layouts_with_power_of_two_boundary_lengths"] = n_boundary
@@ -562,7 +654,16 @@ def relayout(base, rng):
 
 def judge(ctx, res, traces, meta):
     payload = [{k: v for k, v in t.items()} for t in traces]
-    verdicts, stats = tlc.validate("TraceAppImage", "Trace_AppImage.cfg", payload, shards=8)
+    saved = os.environ.get("JAVA_TOOL_OPTIONS")
+    os.environ["JAVA_TOOL_OPTIONS"] = " ".join(LIGHT_JVM)
+    try:
+        verdicts, stats = tlc.validate("TraceAppImage", "Trace_AppImage.cfg", payload,
+                                       shards=ctx.pick(6, 10))
+    finally:
+        if saved is None:
+            del os.environ["JAVA_TOOL_OPTIONS"]
+        else:
+            os.environ["JAVA_TOOL_OPTIONS"] = saved
     res.checker_cmds.append("tlc -workers 1 -config Trace_AppImage.cfg TraceAppImage (x%d shards)" % stats["jvms"])
     accepted, drift = 0, 0
     accepted_traces = []
@@ -618,7 +719,7 @@ def judge(ctx, res, traces, meta):
         else:
             run = t["runs"][at - 1] if 1 <= at <= len(t["runs"]) else {"imgs": []}
             info = m["infos"][at - 1] if 1 <= at <= len(m["infos"]) else {}
-            res.violation(session_signature(clause, at, run),
+            res.violation(session_signature(clause, at, run, m.get("dirs", "flat")),
                           "%s in signonetime run %d of %d (argv %s): exit %s, keys generated %s, files %s%s" % (
                               clause, at, len(t["runs"]), info.get("argv"), run.get("exit"), run.get("gens"),
                               json.dumps([[f["path"]["k"], f["path"]["n"], f["kind"], f["key"], f["by"],
@@ -658,8 +759,10 @@ def replay_data(m):
     if m["kind"] == "layout":
         return {"kind": "layout", "layout": m["lay"].to_json()}
     if m["kind"] == "auth":
-        return {"kind": "auth", "layouts": [x.to_json() for x in m["lays"]], "pre": m["pre"], "plan": m["plan"]}
-    return {"kind": "session", "layouts": [x.to_json() for x in m["lays"]], "plan": m["plan"]}
+        return {"kind": "auth", "layouts": [x.to_json() for x in m["lays"]], "pre": m["pre"], "plan": m["plan"],
+                "dirs": m.get("dirs", "flat"), "otherdir": m.get("otherdir", False)}
+    return {"kind": "session", "layouts": [x.to_json() for x in m["lays"]], "plan": m["plan"],
+            "dirs": m.get("dirs", "flat")}
 
 
 def replay(ctx, path):
@@ -674,14 +777,15 @@ def replay(ctx, path):
                  "reports": [[r["via"], r["ok"], bytes(r["digest"]).hex()] for r in reports]}
     elif data["kind"] == "auth":
         lays = [ai.Layout.from_json(x) for x in data["layouts"]]
-        t, infos = exec_auth(ctx, lays, data["pre"], data["plan"], "replay", ctx.rng)
+        t, infos = exec_auth(ctx, lays, data["pre"], data["plan"], "replay", ctx.rng,
+                             data.get("dirs", "flat"), data.get("otherdir", False))
         t["id"] = 1
         shown = {"pre": data["pre"], "plan": data["plan"], "expected": [bytes(x).hex() for x in t["expected"]],
                  "steps": [dict(s, hash=bytes(s["hash"]).hex()) for s in t["steps"]],
                  "stdout": [i["stdout"] for i in infos]}
     else:
         lays = [ai.Layout.from_json(x) for x in data["layouts"]]
-        t, infos = exec_session(ctx, lays, data["plan"], "replay", ctx.rng)
+        t, infos = exec_session(ctx, lays, data["plan"], "replay", ctx.rng, data.get("dirs", "flat"))
         t["id"] = 1
         shown = {"plan": data["plan"], "runs": [{k: v for k, v in r.items() if k != "hashes"} for r in t["runs"]],
                  "stdout": [i["stdout"] for i in infos]}
